@@ -179,4 +179,14 @@ example : checkEndpointLocation "urn:oasis:names:tc:SAML:2.0:bindings:HTTP-POST"
     [72, 84, 84, 80, 115, 58, 47, 47, 120] = .ok [72, 84, 84, 80, 115, 58, 47, 47, 120] := by decide
 example : htmlEscape [34, 62, 60, 0, 43, 38] ≠ [34, 62, 60, 0, 43, 38] := by decide
 
+/-- every value handed to a template execution is a plain `string` field filled from a plain expression: no field has one
+    of the html/template types that bypass contextual escaping, and nothing is converted to one -/
+def hasInfix (pat : List Char) : List Char → Bool
+  | [] => pat.isEmpty
+  | c :: cs => pat.isPrefixOf (c :: cs) || hasInfix pat cs
+
+theorem C14_template_data_plain :
+    Facts.templateData.all (fun r => r.2.2.1 = "string" && !hasInfix "template.".toList r.2.2.2.toList) = true ∧
+    Facts.templateData.length = 16 := by decide +kernel
+
 end SamlVerif.Html
